@@ -857,14 +857,44 @@ def install(ctx):
             core.wrap_function(mod, name, post_shadow)
 
 
+def g_tc_on_polytope(ctx, rng, i):
+    """A collection of transformations applied to ONE polytope: position k of the result is what the k-th transformation makes of the polytope
+    (a single object broadcasts against a collection).  The number of transformations is chosen equal to and different from the number of vertices."""
+    import geometer as g
+
+    dim = 2 + (i // 2) % 2
+    n = dim + 1
+    nv = 2 if i % 2 == 0 else 3
+    V = gen.coords(rng, (nv, n), 5, "int").astype(float)
+    V[:, -1] = 1
+    V[1, 0] += 11
+    if nv == 3:
+        V[2, 1] += 13
+    poly = g.Segment(g.Point(V[0]), g.Point(V[1])) if nv == 2 else g.Triangle(*[g.Point(v) for v in V])
+    k = [nv, nv + 1, 1][(i // 4) % 3]
+    ms = np.stack([gen.coords(rng, (n, n), 2, "int").astype(float) + 5 * np.eye(n) for _ in range(k)])
+    tc = g.TransformationCollection(ms)
+    feat = {"op": "tc*polytope", "polytope": type(poly).__name__, "n_transformations": k, "n_vertices": nv}
+    try:
+        want = np.stack([np.asarray((g.Transformation(m) * poly).array, dtype=float) for m in ms])
+        got = np.asarray((tc * poly).array, dtype=float)
+    except Exception as e:
+        ctx.judge("tc.polytope", False, [ms, V], what=f"TransformationCollection({k}) * {type(poly).__name__} raised {type(e).__name__}: {str(e)[:80]}", op="tc*polytope", feat={**feat, "exc": type(e).__name__})
+        return
+    ok = got.shape == want.shape and all(X.proj_residual(a, b) <= 1e-9 for a, b in zip(got.reshape(-1, n), want.reshape(-1, n)))
+    ctx.judge("tc.polytope", bool(ok), [ms, V], what=f"TransformationCollection({k}) * {type(poly).__name__}: result of shape {got.shape} is not the {k} transformed polytopes (shape {want.shape})",
+              op="tc*polytope", feat=feat, nontrivial=True)
+
+
 _tolerant = core.tolerant
 
-g_indexing, g_catalogue = _tolerant(g_indexing), _tolerant(g_catalogue)
+g_indexing, g_catalogue, g_tc_on_polytope = _tolerant(g_indexing), _tolerant(g_catalogue), _tolerant(g_tc_on_polytope)
 
 GROUPS = [
     {"name": "indexing", "fn": g_indexing, "quick": 40, "thorough": 400},
     {"name": "catalogue", "fn": g_catalogue, "quick": 48, "thorough": 480},
     {"name": "constructors", "fn": g_constructors, "quick": 120, "thorough": 1200},
+    {"name": "tc_on_polytope", "fn": g_tc_on_polytope, "quick": 96, "thorough": 960},
 ]
 
 
@@ -925,6 +955,13 @@ def f32_transformation_collection_on_single(rec, feat):
         and cls[0] == "TransformationCollection" and list(coll[1:]) == [0] and "not a collection of them" in rec["what"]
 
 
-CLASSIFIERS = {"f32_transformation_collection_on_single": f32_transformation_collection_on_single, "f27_coincident_position_nan": f27_coincident_position_nan, "f28_perpendicular_plane_collection": f28_perpendicular_plane_collection,
+def f35_transformation_collection_on_single_polytope(rec, feat):
+    """A TransformationCollection applied to a single Segment / Polygon: Tensor.__apply__ aligns the collection axis of the transformations with
+    the vertex axis of the polytope (a free axis of its array): transformation k is applied to vertex k when the two lengths agree (silently
+    wrong), a broadcasting ValueError is raised otherwise.  One transformation (length-1 axis) broadcasts and gives the right values in the wrong shape."""
+    return rec["monitor"] == "tc.polytope" and feat.get("op") == "tc*polytope" and feat.get("polytope") in ("Segment", "Triangle", "Polygon", "Rectangle")
+
+
+CLASSIFIERS = {"f35_transformation_collection_on_single_polytope": f35_transformation_collection_on_single_polytope, "f32_transformation_collection_on_single": f32_transformation_collection_on_single, "f27_coincident_position_nan": f27_coincident_position_nan, "f28_perpendicular_plane_collection": f28_perpendicular_plane_collection,
                "f4_polytope_collection_indexing": f4_polytope_collection_indexing, "f26_polygon2d_intersect_collection": f26_polygon2d_intersect_collection,
                "f4_polygon_collection_3d_points": f4_polygon_collection_3d_points}
